@@ -25,6 +25,7 @@ JudgeMerge(e) ==
   ELSE IF e.out.merr # "" THEN "marshal-error"
   ELSE IF e.out.uerr # "" THEN "decode-error"
   ELSE IF ~e.out.inputIntact THEN "input-modified"
+  ELSE IF ~e.out.sane THEN "decoded-slice-has-len-above-cap"
   ELSE LET d == Decode(cfg, T2, e.out.bytes, e.prior) IN
        IF ~d.ok THEN "bytes-not-decodable-by-model"
        ELSE IF Same(cfg, T2, e.out.back, d.v) THEN "ok"
@@ -36,7 +37,7 @@ NonOk(vs) == {i \in 1..Len(vs) : vs[i][2] # "ok"}
 Init == l = 1 /\ bad = 0
 Next == /\ l <= Len(Trace)
         /\ LET e == Trace[l]  vs == Judge(e) IN
-           /\ \A i \in NonOk(vs) : PrintT(<<"VERDICT", e.id, vs[i][1], vs[i][2]>>)
+           /\ \A i \in NonOk(vs) : PrintT("VERDICT " \o ToString(e.id) \o " " \o vs[i][1] \o " " \o vs[i][2])
            /\ bad' = bad + (IF NonOk(vs) = {} THEN 0 ELSE 1)
         /\ l' = l + 1
 Spec == Init /\ [][Next]_vars
